@@ -188,6 +188,11 @@ def map_provenance(fn, expr, depth=0):
             p, w = map_provenance(fn, d.value, depth + 1)
             if p is None:
                 return None, w
+            if p == "empty":
+                # created empty and filled by stores: every fill must sit in a loop that enumerates a view in view order
+                bad = fills_out_of_view_order(fn, expr.id)
+                if bad is not None and any(isinstance(n, ast.Subscript) and isinstance(n.ctx, ast.Store) and isinstance(n.value, ast.Name) and n.value.id == expr.id for n in ast.walk(fn.node)):
+                    return None, f"`{expr.id}` is filled while iterating `{bad}`, not an enumeration of the view in view order"
             kinds.add(p)
             why = w
         return sorted(kinds)[0], why
